@@ -67,6 +67,11 @@ Inductive case :=
        (impl_toks : list ltok) (impl : res ast)
 (* token list chosen by the generator, rendered to text by the harness (bare / "..." / '...' /
    `...`, escapes, spaces, comments) and lexed by the real lexer *)
+(* f:in(e1,..,en) (query qin) and the written-out  f:e1 or .. or f:en  (query qor), possibly
+   inside the same context (not / and), both parsed by the real ParseSeqQL under the full mapping;
+   impl_in / impl_or = the two ASTs with every distinct literal numbered (same numbering in both) *)
+| CInOr (qin qor : bytes) (cls : list (N * N)) (user builtin : list (bytes * N))
+        (impl_in impl_or : res ast)
 | CRound (expected : list ltok) (input : bytes) (cls : list (N * N)) (impl_toks : list ltok).
 
 Definition T := mkTok.
@@ -117,6 +122,17 @@ Definition rres_eqb (m : R ast) (impl : res ast) : bool :=
   end.
 
 (* a lexer token that is neither quoted nor empty; only the end token (not listed) is empty *)
+Fixpoint erase (t : ast) : ast :=
+  match t with
+  | Leaf _ => Leaf 0
+  | NotN a => NotN (erase a)
+  | AndN l r => AndN (erase l) (erase r)
+  | OrN l r => OrN (erase l) (erase r)
+  | NAndN l r => NAndN (erase l) (erase r)
+  end.
+Definition erase_res (r : res ast) : res ast :=
+  match r with Ok t => Ok (erase t) | Err => Err | OutOfFuel => OutOfFuel end.
+
 Definition ltok_wf (t : ltok) : bool :=
   t_quoted t || match t_txt t with [] => false | _ => true end.
 
@@ -138,6 +154,9 @@ Definition case_agrees (c : case) : bool :=
       (* the hypotheses of the totality theorems hold for the dumped classes *)
       && negb (cls_bit cls 0 RuneError) && negb (cls_bit cls 1 RuneError)
       && negb (cls_bit cls 2 RuneError)
+  | CInOr qin qor cls user builtin impl_in impl_or =>
+      rres_eqb (parse_case cls false user builtin qin) (erase_res impl_in)
+      && rres_eqb (parse_case cls false user builtin qor) (erase_res impl_or)
   | CRound _ input cls impl_toks => toks_agree (lex_case cls input) impl_toks
   end.
 
@@ -157,6 +176,13 @@ Definition case_spec_ok (c : case) : bool :=
   | CLex _ _ _ _ _ impl_toks impl =>
       forallb ltok_wf impl_toks
       && match impl with Ok t => not_only_at_root t | Err => true | OutOfFuel => false end
+  | CInOr _ _ _ _ _ impl_in impl_or =>
+      (* in(..) selects exactly what the OR of its members written as stand-alone filters selects *)
+      match impl_in, impl_or with
+      | Ok a, Ok b => forallb (fun v => Bool.eqb (eval v a) (eval v b)) (valuations 8)
+      | Err, Err => true
+      | _, _ => false
+      end
   | CRound expected _ _ impl_toks => list_eqb ltok_eqb expected impl_toks
   end.
 
